@@ -12,7 +12,7 @@ static uint8_t family_byte(int fam, size_t i)
 	case 0: return 0x00;
 	case 1: return 0xFF;
 	case 2: return (uint8_t) (i * 7 + 3);
-	default: return (uint8_t) ((i * i * 31 + (i >> 3) * 17) ^ 0xA5);
+	default: return (uint8_t) ((i * i * 31 + (i >> 3) * 17 + (i >> 11) * 29 + (i >> 16) * 53 + (i >> 20) * 101) ^ 0xA5);      /* no short period: blocks of 2 KiB, 64 KiB and 1 MiB all differ */
 	}
 }
 
